@@ -124,6 +124,101 @@ fn build_cases(tier: Tier) -> Vec<(String, Vec<Case>)> {
     }
     groups.push(("(i) statistic x shape grid".into(), g));
 
+    // (i-b) size ladder: the same statistics and options on spectra whose axis lengths and entry
+    // counts sit at and around powers of two and the limits of the look-up tables in the code
+    let mut g = Vec::new();
+    let mut ladder: Vec<Vec<usize>> = Vec::new();
+    for c in [64usize, 128, 171, 256, 512, 1024, 2048, 4096, 8192, 16_384, 32_768, 65_536, 131_072] {
+        for n in [c - 1, c, c + 1, c + 2] {
+            ladder.push(vec![n]);
+        }
+    }
+    ladder.extend([vec![170], vec![174], vec![175], vec![341], vec![343], vec![1000], vec![100_000]]);
+    if tier.thorough() {
+        for c in [262_144usize, 524_288, 1_048_576, 4_194_304] {
+            for n in [c, c + 1, c + 2] {
+                ladder.push(vec![n]);
+            }
+        }
+    }
+    for s in &ladder {
+        let input = spectrum_text(s);
+        let n = s[0];
+        let cls = format!("ladder-1d,{}", if n <= 175 { "n<=175" } else if n <= 4098 { "n<=4098" } else { "n>4098" });
+        for st in ["sum", "s", "pi", "theta", "d-tajima", "d-fu-li", "f2", "sum,s,pi,theta,d-tajima,d-fu-li", "sum,s,pi"] {
+            // Watterson's estimator (and with it both D statistics) is quadratic in the axis length
+            // (21 s at 131 071 entries): slow is not a violation, so it stays below 20 000 entries
+            if n > 20_000 && (st.contains("theta") || st.contains("d-")) {
+                continue;
+            }
+            g.push(case(&["stat", "-s", st], &input, &cls, format!("stat -s {st} on shape {s:?}")));
+        }
+        let half = ((n - 1) / 4).max(1).to_string();
+        let full = ((n - 1) / 2).to_string();
+        let same = n.to_string();
+        let opts: Vec<Vec<&str>> = vec![
+            vec!["view"],
+            vec!["view", "-O", "npy"],
+            vec!["view", "--mask-monomorphic", "--normalize"],
+            vec!["view", "-p", "1"],
+            vec!["view", "-p", "5"],
+            vec!["view", "-p", &half],
+            vec!["view", "-p", &full],
+            vec!["view", "--project-shape", &same],
+            vec!["view", "--project-shape", "172"],
+            vec!["fold"],
+            vec!["fold", "--fill", "nan", "-O", "npy"],
+        ];
+        for o in opts {
+            // projections to half the size of a very long axis are quadratic: keep them to the
+            // ladder below 4 100 (thorough 20 000) entries
+            if n > tier.pick(4_100, 20_000) && (o.contains(&half.as_str()) || o.contains(&full.as_str()) || o.contains(&same.as_str())) && o.len() > 1 && o[1] != "-O" && o[1] != "--mask-monomorphic" {
+                continue;
+            }
+            g.push(case(&o, &input, &cls, format!("{} on shape {s:?}", o.join(" "))));
+        }
+    }
+    let mut ladder2: Vec<Vec<usize>> = vec![
+        vec![32, 32], vec![25, 41], vec![33, 33], vec![2, 512], vec![2, 513], vec![513, 2], vec![172, 2], vec![2, 172], vec![171, 171], vec![172, 172], vec![173, 3],
+        vec![64, 64], vec![65, 65], vec![255, 257], vec![3, 4097], vec![4097, 3], vec![2, 65_537], vec![65_537, 2], vec![16, 16, 4], vec![11, 11, 9], vec![17, 17, 17], vec![6, 6, 6, 6], vec![173, 2, 3],
+    ];
+    if tier.thorough() {
+        ladder2.extend([vec![1025, 1025], vec![2, 1_048_577], vec![101, 101, 101], vec![33, 33, 33, 33]]);
+    }
+    for s in &ladder2 {
+        let input = spectrum_text(s);
+        let d = s.len();
+        let cls = format!("ladder-{d}d");
+        let stats: &[&str] = match d {
+            2 => &["sum", "s", "f2", "fst", "pi-xy", "king", "r0", "r1", "sum,f2,fst,pi-xy"],
+            3 => &["sum", "s", "f3"],
+            _ => &["sum", "s", "f4"],
+        };
+        for st in stats {
+            g.push(case(&["stat", "-s", st], &input, &cls, format!("stat -s {st} on shape {s:?}")));
+        }
+        let ones = vec!["1"; d].join(",");
+        let fives = s.iter().map(|n| ((n - 1) / 2).min(5).to_string()).collect::<Vec<_>>().join(",");
+        let halves = s.iter().map(|n| ((n - 1) / 4).max(1).min(tier.pick(8, 40)).to_string()).collect::<Vec<_>>().join(",");
+        let opts: Vec<Vec<&str>> = vec![
+            vec!["view"],
+            vec!["view", "-O", "npy"],
+            vec!["view", "--mask-monomorphic", "--normalize"],
+            vec!["view", "-p", &ones],
+            vec!["view", "-p", &fives],
+            vec!["view", "-p", &halves],
+            vec!["view", "-m", "0"],
+            vec!["view", "-M", "0"],
+            vec!["view", "-m", "0", "-p", "1", "-O", "npy"],
+            vec!["fold"],
+            vec!["fold", "-O", "npy"],
+        ];
+        for o in opts {
+            g.push(case(&o, &input, &cls, format!("{} on shape {s:?}", o.join(" "))));
+        }
+    }
+    groups.push(("(i-b) size ladder".into(), g));
+
     // (ii) view / fold single options x shape
     let mut g = Vec::new();
     for s in &all_shapes {
@@ -416,7 +511,17 @@ pub fn run(tier: Tier) -> i32 {
     let groups = build_cases(tier);
     let mut total_incon = 0u64;
     for (name, cases) in &groups {
-        let outs = par_map(cases.len(), |i| run_case(&cases[i], &scratch));
+        let group_start = std::time::Instant::now();
+        let timed = par_map(cases.len(), |i| {
+            let t = std::time::Instant::now();
+            let o = run_case(&cases[i], &scratch);
+            (o, t.elapsed().as_secs_f64())
+        });
+        let group_wall = group_start.elapsed().as_secs_f64();
+        let mut slowest: Vec<(f64, usize)> = timed.iter().enumerate().map(|(i, (_, t))| (*t, i)).collect();
+        slowest.sort_by(|a, b| b.0.partial_cmp(&a.0).unwrap());
+        let slowest: Vec<String> = slowest.iter().take(3).map(|(t, i)| format!("{:.1}s {}", t, cases[*i].what)).collect();
+        let outs: Vec<Out> = timed.into_iter().map(|(o, _)| o).collect();
         let mut n_ok0 = 0u64;
         let mut n_err = 0u64;
         let mut n_viol = 0u64;
@@ -445,7 +550,7 @@ pub fn run(tier: Tier) -> i32 {
             name: format!("cli: {name}"),
             evaluations: cases.len() as u64,
             nontrivial: cases.len() as u64,
-            note: format!("{n_ok0} exit 0, {n_err} diagnosed errors, {n_viol} violations, {n_incon} inconclusive (allocation / thread-creation failure under the harness's own memory cap)"),
+            note: format!("{n_ok0} exit 0, {n_err} diagnosed errors, {n_viol} violations, {n_incon} inconclusive (allocation / thread-creation failure under the harness's own memory cap); {group_wall:.1}s, slowest: {}", slowest.join("; ")),
             exhaustive: true,
             extra: vec![],
         });
